@@ -381,6 +381,18 @@ func (w *wireCtx) marshalConcurrent() {
 	w.res.Evaluations += 3200
 }
 
+// ptrMessage returns a pointer to a copy of the message value, as a Message
+func ptrMessage(m p9p.Message) (p9p.Message, bool) {
+	rv := reflect.ValueOf(m)
+	if rv.Kind() != reflect.Struct {
+		return nil, false
+	}
+	p := reflect.New(rv.Type())
+	p.Elem().Set(rv)
+	pm, ok := p.Interface().(p9p.Message)
+	return pm, ok
+}
+
 // checkMessage: the three clauses of C01 for one message with oracle bytes `want`.
 func (w *wireCtx) checkMessage(kind string, tag []byte, f map[string]interface{}, want []byte, origin string) {
 	msg, err := mkMessage(kind, f)
@@ -422,6 +434,25 @@ func (w *wireCtx) checkMessage(kind string, tag []byte, f map[string]interface{}
 	}
 	if sz := w.codec.Size(fc); sz != len(want) {
 		w.res.Violate("C01", "size:"+kind, fmt.Sprintf("%s: Size reports %d, the encoding has %d bytes", kind, sz, len(want)), rep())
+	}
+	// the same message handed over as a pointer (a Message like any other: the methods have value receivers)
+	if pm, okp := ptrMessage(msg); okp {
+		pfc := &p9p.Fcall{Type: fc.Type, Tag: fc.Tag, Message: pm}
+		var pgot []byte
+		var perr error
+		okm, pdump := hx.RunTimed(10*time.Second, func() { pgot, perr = w.codec.Marshal(pfc) })
+		switch {
+		case !okm:
+			w.res.Violate("C01", "marshal-panic:ptr:"+kind, hx.Trunc(pdump, 800), rep())
+		case perr != nil:
+			w.res.Violate("C01", "marshal-error:ptr:"+kind, perr.Error(), rep())
+		case !bytes.Equal(pgot, want):
+			w.res.Violate("C01", "layout:ptr:"+kind, fmt.Sprintf("%s passed as *%T encodes to %d bytes that differ from the 9P2000 layout (%d bytes)", kind, msg, len(pgot), len(want)), rep())
+		default:
+			if sz := w.codec.Size(pfc); sz != len(want) {
+				w.res.Violate("C01", "size:ptr:"+kind, fmt.Sprintf("%s passed as *%T: Size reports %d, the encoding has %d bytes", kind, msg, sz, len(want)), rep())
+			}
+		}
 	}
 	var back p9p.Fcall
 	ok, dump = hx.RunTimed(10*time.Second, func() { err = w.codec.Unmarshal(want, &back) })
